@@ -198,7 +198,10 @@ impl Pca<f64> {
         &self,
         prediction: ArrayBase<ndarray::OwnedRepr<f64>, ndarray::Dim<[usize; 2]>>,
     ) -> ArrayBase<ndarray::OwnedRepr<f64>, ndarray::Dim<[usize; 2]>> {
-        prediction.dot(&self.embedding) + &self.mean
+        // the rows of the embedding are orthogonal and have unit norm, unless whitening scaled
+        // them; dividing by the squared row norm undoes that scale
+        let scale = self.embedding.map_axis(Axis(1), |row| row.dot(&row));
+        (prediction / &scale).dot(&self.embedding) + &self.mean
     }
 }
 
